@@ -2,6 +2,7 @@ import TsRsVerif.Model.Deps
 import TsRsVerif.Generated.Tables
 import TsRsVerif.Lemmas.SortedStr
 import TsRsVerif.Lemmas.MergeLemmas
+import TsRsVerif.Lemmas.DedupLemmas
 /-!
 # C13 — bindings are a deterministic function of the source and configuration
 
@@ -61,6 +62,24 @@ theorem C13_import_names_perm (deps deps' : List Visited) (h : deps.Perm deps') 
     (deps.map (·.ident)).foldl (fun a x => insertSorted x a) []
       = (deps'.map (·.ident)).foldl (fun a x => insertSorted x a) [] :=
   foldl_insertSorted_perm _ _ (h.map _)
+
+/-- **the whole import block is order-independent**: `generate_imports` prints the same text (or fails
+the same way) for every order in which the derive's `HashSet` hands over the dependencies, provided
+no two different dependencies carry the same TypeScript name (then the text is inherently ambiguous) -/
+theorem C13_generate_imports_perm (esm : Bool) (cwd outDir : Str) (it : Item) (deps deps' : List Visited)
+    (hp : deps.Perm deps')
+    (hnd : ((deps.filter fun d => !RTy.beq d.ty (withoutGenerics it)).map (·.ident)).Nodup) :
+    generateImports esm cwd outDir it deps = generateImports esm cwd outDir it deps' := by
+  unfold generateImports
+  rw [dedupByName_perm it deps deps' hp hnd]
+
+/-- … and so is the whole generated file -/
+theorem C13_export_to_string_perm (cfg : Cfg) (env : Env) (fuel : Nat) (esm : Bool) (cwd outDir : Str) (it : Item)
+    (deps deps' : List Visited) (hp : deps.Perm deps')
+    (hnd : ((deps.filter fun d => !RTy.beq d.ty (withoutGenerics it)).map (·.ident)).Nodup) :
+    exportToString cfg env fuel esm cwd outDir it deps = exportToString cfg env fuel esm cwd outDir it deps' := by
+  unfold exportToString
+  rw [C13_generate_imports_perm esm cwd outDir it deps deps' hp hnd]
 
 /-- **declarations in a shared file are order-independent** (restated from C05): whichever test
 happens to export a shared dependency first, the block list is the same -/
